@@ -49,14 +49,7 @@ Definition conv_ssa_ttml (d : adoc) : tdoc :=
         (sort_keys (at_styles (ad_styles d))) [] (map at_item (ad_items d)).
 
 (* ---- EBU STL -> TTML ---- *)
-(* ReadFromSTL fills a Metadata from the GSI block: the frame rate, the original programme title (Title, written as
-   ttm:title) and the language the code maps to (written as xml:lang when it is one of the five); the STL attributes of
-   runs and cues are not TTML attributes *)
-Definition et_run (r : erun) : trun := mkRun (ru_text r) None no_attrs.
-Definition et_item (it : ritem) : titem :=
-  mkItem (ri_st it) (ri_en it) None None no_attrs (map (map et_run) (ri_lines it)).
-Definition conv_stl_ttml (d : rdoc) : tdoc :=
-  mkDoc (Some (mkMeta (rd_fps d) (rd_title d) [] (rd_lang d))) [] [] (map et_item (rd_items d)).
+(* EBU STL sources: Model/ConvStlTtml.v (the runs' colour attribute reaches the TTML writer) *)
 
 (* ---- file to file: the destination bytes as Go's encoder writes them (default indent) ---- *)
 Definition to_ttml_bytes (d : tdoc) : res str := write_ttml_bytes_go ttml_default_indent d.
@@ -66,5 +59,3 @@ Definition convert_vtt_ttml (data : str) : res str :=
   match read_vtt data with Ok d => to_ttml_bytes (conv_vtt_ttml d) | Err k => Err k | Panic p => Panic p end.
 Definition convert_ssa_ttml (data : str) : res str :=
   match read_ssa data with Ok d => to_ttml_bytes (conv_ssa_ttml d) | Err k => Err k | Panic p => Panic p end.
-Definition convert_stl_ttml (data : str) : res str :=
-  match read_stl false data with Ok d => to_ttml_bytes (conv_stl_ttml d) | Err k => Err k | Panic p => Panic p end.
